@@ -451,12 +451,11 @@ func TestC31Packetization(t *testing.T) {
 }
 
 // TestC31FlitCountGrid enumerates the flit-count formula on a grid around the
-// boundaries: every flit size 1..64 and 255/256, every overhead k/8 (0..2), and
-// byte counts 0..3*flit+2 plus {4095,4096,9999,10000}; one message per case,
+// flit-size boundaries (see the rule string): one message per case through a
 // pass-through wire.
 func TestC31FlitCountGrid(t *testing.T) {
 	s := kit.Begin(t, "C31", "flit-count-grid",
-		"direct call-free enumeration through the real endpoint: for flit size in {1..16,31,32,33,63,64,255,256}, overhead k/8 (k=0..16) and bytes in {0..3*flit+2 (step 1 up to 40, then boundaries), 4095, 4096, 9999, 10000}: one message through A->wire(pass-through)->B; emitted flit count and NumFlitInMsg must equal max(1, ceil((bytes+ceil(bytes*overhead))/flit)) and the message is delivered once")
+		"grid enumeration through a real endpoint pair: flit size in {1..16,31,32,33,63,64,255,256} x overhead k/8 (k=0..16) x bytes in {0..min(40,3*flit+2)} + {m*flit+d : m=1..3, d=-2..2} + {4095,4096,9999,10000} (combinations needing more than 3000 flits are skipped): one message A -> pass-through wire -> B; the number of flits emitted and every NumFlitInMsg must equal max(1, ceil((bytes+ceil(bytes*overhead))/flit)) and the message is delivered exactly once. Non-trivial: bytes>0 and overhead>0")
 	defer s.End()
 	if kit.ReplayMode() {
 		t.Skip()
